@@ -47,12 +47,12 @@ def cases(tier, seed):
     for n in range(1, top + 1):
         out.append({"t": "space", "n": n, "seed": seed})
     out.append({"t": "guard", "seed": seed})
-    reps = 1 if tier == "quick" else 12
+    reps = 1 if tier == "quick" else 100
     for kind in gen.KINDS:
         for n in range(1, 6):
             for r in range(reps):
                 out.append({"t": "index", "kind": kind, "n": n, "rep": r, "seed": seed})
-    nf = 40 if tier == "quick" else 1000
+    nf = 40 if tier == "quick" else 10000
     for i in range(nf):
         out.append({"t": "file", "rep": i, "seed": seed})
     return out
